@@ -466,6 +466,29 @@ func ruleSrv(c *Ctx) {
 			return true
 		})
 		R.Check(ok, "O3", "srv.(*Orchestrator).Service/wait-before-return", p.Position(run.Pos()), "every return is after wg.Wait()", "the orchestrator's Run can return without waiting for the services it started")
+		// a service the orchestrator starts itself is awaited unconditionally: waitFor(ctx) gives up as
+		// soon as the orchestrator's context is cancelled, i.e. exactly when the services are shutting down
+		for _, l := range run.Lits {
+			levs := linearise(l, nil)
+			si, wi2, wname := -1, -1, ""
+			for i, e := range levs {
+				if call, ok := e.Node.(*ast.CallExpr); ok {
+					switch n := callName(run.Info(), call); n {
+					case "srv.(*Service).Start":
+						si = i
+					case "srv.(*Service).Wait", "srv.(*Service).waitFor":
+						if si >= 0 && wi2 < 0 {
+							wi2, wname = i, n
+						}
+					}
+				}
+			}
+			if si < 0 {
+				continue
+			}
+			R.Check(wi2 > si && wname == "srv.(*Service).Wait", "O3", "srv.(*Orchestrator).Service/await-started", p.Position(l.Pos()), "Start, then the unconditional Service.Wait",
+				fmt.Sprintf("the goroutine that starts a service awaits it with %q: a wait bounded by the orchestrator's own context returns as soon as that context is cancelled, so Run (and Wait) return while the service is still shutting down and its Cleanup error is lost", wname))
+		}
 		// every started/awaited service error is collected
 		adds := 0
 		ast.Inspect(run.Body, func(x ast.Node) bool {
